@@ -39,7 +39,9 @@ RULE = (
     "client actions right-kind input/wrong-kind input/bad-schema exchange/iterate/close/cancel at any position, ending close/cancel/"
     "auto; the same calls through a client Protocol with another protocol_version, with drifted parameter types or "
     "with methods the server lacks (version / parameter / unknown-method rejection via the public client); raw "
-    "unary-shaped requests with perturbed metadata/columns/row counts; an on_log callback raising at the j-th log "
+    "unary-shaped requests with perturbed metadata/columns/row counts; raw header-less stream requests (request_version "
+    "/ protocol_version / row-count / column rejections) followed by the input stream a client must send; an on_log "
+    "callback raising at the j-th log "
     "(once or persistently)}. After every call a probe with a fresh nonce must return the nonce. "
     "Non-trivial = a non-success call is followed by a further generated call on the same connection (no reconnect "
     "in between); distinct by SHA-1 of the canonical JSON history."
@@ -112,7 +114,18 @@ _raw = st.builds(
     st.sampled_from(["probe", "unary"]),
     st.sampled_from(_RAW_VARIANTS),
 )
-_op = st.integers(0, 9).flatmap(lambda i: _unary if i == 0 else _raw if i == 1 else _stream)
+# A raw client of a header-less stream method: request (possibly rejected before dispatch), then — exactly like the
+# reference client, which cannot know the verdict yet — its input stream, then it reads ONE response stream.
+_rawstream = st.builds(
+    lambda target, variant, first: {"k": "rawstream", "target": target, "variant": variant, "first": first},
+    st.sampled_from(["prod", "exch"]),
+    st.sampled_from(["valid", "bad_version", "no_version", "bad_pv", "no_pv", "rows0", "rows2", "extra_col",
+                     "missing_col", "wrong_type", "renamed_col"]),
+    st.sampled_from(["close", "send", "cancel"]),
+)
+_op = st.integers(0, 10).flatmap(
+    lambda i: _unary if i == 0 else _raw if i == 1 else _rawstream if i == 2 else _stream
+)
 cases = st.builds(
     lambda t, ops, n0: {"transport": t, "ops": ops, "nonce0": n0},
     st.sampled_from(["pipe", "unix", "tcp"]),
@@ -167,6 +180,11 @@ def _raw_request(target: str, variant: str, tag: int) -> bytes:
     if target == "probe":
         fields = [pa.field("nonce", pa.int64(), nullable=False)]
         row: dict[str, Any] = {"nonce": tag}
+    elif target in ("prod", "exch"):
+        fields = [pa.field("tag", pa.int64(), nullable=False), pa.field("init", pa.utf8(), nullable=False),
+                  pa.field("ilogs", pa.int64(), nullable=False), pa.field("script", pa.utf8(), nullable=False),
+                  pa.field("logs", pa.int64(), nullable=False)]
+        row = {"tag": tag, "init": "ok", "ilogs": 1, "script": "eE", "logs": 1}
     else:
         fields = [pa.field("tag", pa.int64(), nullable=False), pa.field("mode", pa.utf8(), nullable=False),
                   pa.field("logs", pa.int64(), nullable=False)]
@@ -233,6 +251,38 @@ def _run_raw(live: _Live, op: dict[str, Any], tag: int, obs: list[Any]) -> None:
             obs.append(("exception", (md.get(b"vgi_rpc.log_message") or b"").decode("utf-8", "replace")[:120]))
         elif batch.num_rows:
             obs.append(("row", batch.to_pylist()[0]))
+    obs.append(("eos", n))
+
+
+def _input_stream(target: str, first: str) -> bytes:
+    schema = pa.schema([]) if target == "prod" or first != "send" else IN_SCHEMA
+    buf = io.BytesIO()
+    with ipc.new_stream(buf, schema) as w:
+        if first == "send":
+            rows = [] if target == "prod" else [{"v": 1}]
+            w.write_batch(pa.RecordBatch.from_pylist(rows, schema=schema))
+        elif first == "cancel":
+            w.write_batch(pa.RecordBatch.from_pylist([], schema=schema),
+                          custom_metadata=pa.KeyValueMetadata({b"vgi_rpc.cancel": b"1"}))
+    return buf.getvalue()
+
+
+def _run_rawstream(live: _Live, op: dict[str, Any], tag: int, obs: list[Any]) -> None:
+    t = live.conn.client_t
+    t.writer.write(_raw_request(op["target"], op["variant"], tag))
+    t.writer.write(_input_stream(op["target"], op["first"]))
+    reader = ipc.open_stream(t.reader)
+    n = 0
+    while True:
+        try:
+            batch, md = reader.read_next_batch_with_custom_metadata()
+        except StopIteration:
+            break
+        n += 1
+        if md is not None and md.get(b"vgi_rpc.log_level") == b"EXCEPTION":
+            obs.append(("exception", (md.get(b"vgi_rpc.log_message") or b"").decode("utf-8", "replace")[:120]))
+        elif batch.num_rows:
+            obs.append(("batch", batch.to_pylist()))
     obs.append(("eos", n))
 
 
@@ -357,6 +407,8 @@ def _shape(op: dict[str, Any], obs: list[Any], raised_phase: str | None) -> str:
     """Signature of the call's shape: what kind of call it was and how it ended (no timing-dependent facts)."""
     if op["k"] == "raw":
         return f"raw/{op['target']}/{op['variant']}"
+    if op["k"] == "rawstream":
+        return f"rawstream/no_header/{op['variant']}"
     if raised_phase:
         where = {"unary": "unary", "init": "stream_init", "c": "stream_close", "k": "stream_close", "end": "stream_close"}
         return "onlog_raise/" + where.get(raised_phase, "stream_step")
@@ -383,7 +435,7 @@ def _shape(op: dict[str, Any], obs: list[Any], raised_phase: str | None) -> str:
 def _is_fault(op: dict[str, Any], obs: list[Any], raised_phase: str | None) -> bool:
     if raised_phase:
         return True
-    if op["k"] == "raw":
+    if op["k"] in ("raw", "rawstream"):
         return op["variant"] != "valid"
     if _reject_class(op) != "ok":
         return True
@@ -451,13 +503,13 @@ def run_case(case: dict[str, Any]) -> Outcome:
                 nontrivial = True
             obs: list[Any] = []
             live.arm(op.get("onlog"))
-            runner = {"unary": _run_unary, "stream": _run_stream, "raw": _run_raw}[op["k"]]
+            runner = {"unary": _run_unary, "stream": _run_stream, "raw": _run_raw, "rawstream": _run_rawstream}[op["k"]]
             res = live.conn.call(lambda runner=runner, op=op, tag=tag, obs=obs: runner(live, op, tag, obs))
             raised_phase = live.log["raised"]
             seen_logs = list(live.log["seen"])
             live.arm(None)
             shape = _shape(op, obs, raised_phase)
-            out.label("call=" + (shape if op["k"] != "raw" else "raw/" + op["variant"]))
+            out.label("call=" + (shape if op["k"] != "raw" else "raw/" + op["variant"]))  # raw: merge targets
             broken: str | None = None
             if res.stall is not None:
                 out.label(f"stall={res.stall}")
